@@ -54,6 +54,10 @@ INCLUDED = {
 
 
 def run(res, programs, tier):
+    from . import halftest
+    for P in programs:
+        if "dashu_ratio" in P.units and "dashu_float" in P.units and P.role == "main":
+            halftest.rule(res, P, P.name, "R06.5")
     res.rule("R06.1", "infallible From<A> for B between number types only along value-set inclusions (impl table)")
     res.rule("R06.2", "a right shift of the converted value inside a TryFrom body is dominated by a test of the shifted-out bits with an Err edge")
     res.rule("R06.4", "sibling agreement: f32/f64 FloatEncoding::{encode,decode} have the same structure; to_f32/to_f64 of large integers split at one position (kept bits, sticky range, exponent)")
